@@ -423,6 +423,28 @@ class Execution:
         else:
             self.expect_reject(out, op)
 
+    def op_remove_matching(self, op, slot, type_, atoms, params):
+        from vermouth.molecule import Interaction
+        real, model = self.get(slot)
+        if real is None:
+            return False
+        template = Interaction(atoms=tuple(atoms), parameters=list(params), meta={})
+        out = self.call(real.remove_matching_interaction, type_, template)
+        items = model.inter.get(type_, [])
+        hit = None
+        for idx, item in enumerate(items):
+            if item[0] == tuple(atoms) and (not params or list(item[1]) == list(params)):
+                hit = idx
+                break
+        if hit is None:
+            self.expect_reject(out, op)
+            return
+        self.expect_ok(out, op)
+        del items[hit]
+        if not items:
+            del model.inter[type_]
+        self.stats.probes['removed_by_template'] += 1
+
     def op_copy(self, op, src, dst):
         real, model = self.get(src)
         if real is None:
@@ -1252,6 +1274,22 @@ class Generator:
             elif keys:
                 t, atoms, version = 'bonds', rng.sample(keys, min(2, len(keys))), 0
             else:
+                return
+            if rng.random() < 0.25:
+                # removal by template: same atoms, and the same parameters when the template gives any
+                params = []
+                for tt, item in existing:
+                    if tt == t and list(item[0]) == list(atoms) and rng.random() < 0.5:
+                        params = list(item[1])
+                        break
+                self.emit(['remove_matching', slot, t, atoms, params])
+                items = m.inter.get(t, [])
+                for idx, item in enumerate(items):
+                    if item[0] == tuple(atoms) and (not params or list(item[1]) == params):
+                        del items[idx]
+                        if not items:
+                            del m.inter[t]
+                        break
                 return
             self.emit(['remove_interaction', slot, t, atoms, version])
             m.remove_interaction(t, atoms, version)
